@@ -212,7 +212,7 @@ func (g *libGen) add(fn, family string, flags uint32, text bool, in string) {
 	k := fmt.Sprint(fn, "|", family, "|", flags)
 	c := g.cur[k]
 	lim := 256
-	if strings.Contains(family, "count-pair") {
+	if strings.Contains(family, "count-pair") || strings.Contains(family, "count-child") {
 		lim = 32
 	}
 	if c == nil || len(c.Lib.Ins) >= lim {
@@ -243,6 +243,9 @@ func (g *libGen) bytesFamilies(fn, tname string, pl []byte, fields []field, wide
 			}
 		}
 	}
+	countChild(pl, fields, func(name string, b []byte) {
+		g.add(fn, tname+"/count-child", 0, false, h(b))
+	})
 	if pairs {
 		// two CompactSize fields replaced at once (offset arithmetic that only wraps
 		// when a huge count meets a "negative" length)
